@@ -145,3 +145,37 @@ func TestC16Concurrent(t *testing.T) {
 		c.NonTrivial()
 	})
 }
+
+const ruleC16Every = "every configurable chance: for each chance 0..100 a stream of N tagged chunks (N drawn from 400000..600000 per case, sizes 4..12) is pushed through its own NewLossFilter in front of a counting sink (in-package shim); oracle: chance 0 forwards all, 100 none, otherwise |dropped - N*chance/100| <= 6*sqrt(N*p*(1-p)) - at this N a filter that is off by one percentage point at a single chance value lies 12 sigma out; non-trivial = every case; distinct by N"
+
+// TestC16EveryChance enumerates the configuration parameter instead of sampling it: an error
+// confined to a few chance values (a rounding step, a table entry) shows only there.
+func TestC16EveryChance(t *testing.T) {
+	r := ev.New("C16", "every-chance", ruleC16Every)
+	r.Assume("the statistical bound is 6 sigma per chance value (false-alarm probability below 2e-9 per assertion, 2e-7 per case)")
+	r.Check(t, func(t *rapid.T, c *ev.Case) {
+		n := rapid.IntRange(400000, 600000).Draw(t, "n")
+		c.Set("n", n)
+		for chance := 0; chance <= 100; chance++ {
+			forwarded := 0
+			sink := vnet.VerifNewSink(func(vnet.Chunk) { forwarded++ })
+			f, err := vnet.NewLossFilter(sink, chance)
+			if err != nil {
+				t.Fatalf("NewLossFilter(%d): %v", chance, err)
+			}
+			p := make([]byte, 12)
+			ch := vnet.VerifNewChunkUDP(srcAddr, dstAddr, p)
+			for i := 0; i < n; i++ {
+				vnet.VerifInbound(f, ch)
+			}
+			dropped := n - forwarded
+			pr := float64(chance) / 100
+			bound := 6 * math.Sqrt(float64(n)*pr*(1-pr))
+			if dev := math.Abs(float64(dropped) - float64(n)*pr); dev > bound {
+				t.Fatalf("C16: chance %d: dropped %d of %d chunks, expected %.0f +- %.0f (6 sigma): the dropped fraction is %.4f, not %d/100", chance, dropped, n, float64(n)*pr, bound, float64(dropped)/float64(n), chance)
+			}
+		}
+		c.Label("all-101-chances")
+		c.NonTrivial()
+	})
+}
